@@ -51,6 +51,9 @@ def run(ctx):
         ("walks-crowd", ["record-walk", "--seed", s, "--tags", "crowd,cap18,promo", "--walks", 40 if q else 400, "--plies", 40, "--probe-every", 400, "--out", w + "/b.ndjson"]),
         ("iterators", ["record-iter", "--mode", "random", "--tags", "", "--seed", s, "--events", 60000 if q else 600000, "--out", w + "/c.ndjson"]),
         ("iterators-masked", ["record-iter", "--mode", "masked", "--tags", "crowd,cap18,ep,promo", "--seed", s, "--events", 40000 if q else 400000, "--out", w + "/d.ndjson"]),
+        # inside the two known-finding classes of C10 (mutation while a promotion destination is partially yielded,
+        # remove_move of a promotion) wrong answers are known; a panic there is not
+        ("iterators-known-class", ["record-iter", "--mode", "random", "--no-avoid", "--tags", "promo", "--seed", s, "--events", 60000 if q else 600000, "--out", w + "/d2.ndjson"]),
         ("parser-builder", ["record-fen", "--seed", s, "--events", 0, "--random", 100000 if q else 2000000, "--builds", 100000 if q else 2000000, "--out", w + "/e.ndjson"]),
         ("bitboards", ["record-bb", "--seed", s, "--cases", 2000 if q else 50000, "--out", w + "/f.ndjson"]),
         ("text", ["record-text", "--seed", s, "--alphabet", 8, "--random", 20000 if q else 500000, "--out", w + "/g.ndjson"]),
